@@ -87,8 +87,7 @@ BOOKKEEP = [
     # (written amount, context) - `computed_of` is only a name for "what compute_from_syntax returns", needed to state process_posting's contract
     U("ComputedPosting::compute_from_syntax(body)", BK, [r"impl<'ctx> ComputedPosting<'ctx>", r"fn compute_from_syntax\b"], fn="compute_from_syntax__body", wrap=IMPL_CP,
       rewrites=[RET(), ("R0-rename", "fn compute_from_syntax(", "fn compute_from_syntax__body(", 1), ("R34b",),
-                ("R20-into-to-from", "re:let amount: PostingAmount = syntax_amount\\s*\\.amount\\s*\\.as_undecorated\\(\\)\\s*\\.eval_mut\\(ctx\\)\\?\\s*\\.try_into\\(\\)\\?;",
-                 "let amount: PostingAmount = PostingAmount::try_from(syntax_amount.amount.as_undecorated().eval_mut(ctx)?)?;", 1)],
+                ("R20s",)],
       contract="""
         ensures
             ctx_extends(*old(ctx), *final(ctx)),   // @compute_from_syntax.only_extends_the_stores
@@ -207,6 +206,8 @@ BOOKKEEP = [
             // C04: the running balance moves by exactly what the postings listed so far say, account by account
             forall|a: Account, c: Commodity| #[trigger] val(bal@, a, c) == val(bal_in, a, c) + acct_sum(postings@, i as int, a, c),
             unfilled is Some ==> postings@[unfilled->Some_0.value as int].amount@ == Map::<Commodity, real>::empty(),
+            // C12: a posting is booked on the account its written name resolves to (an alias resolves to its canonical account)
+            forall|j: int| 0 <= j < i ==> ctx.accounts.resolved(txn.posts@[j].value.account.value@) == Some(#[trigger] postings@[j].account),
 """},
       loop_body_start={0: """
         let ghost bal_before = bal@;
@@ -278,6 +279,8 @@ BOOKKEEP = [
             // C01/C03: accepted => one omitted amount absorbs exactly the negated sum of the balancing values,
             //          or the rounded totals are balanced
             r matches Ok(t) ==> accepted(&*final(ctx), t.postings@, txn.posts@),   // @add_transaction.accepted_only_if_deduced_or_balanced
+            // C12: every stored posting sits on the account its written name resolves to - whichever alias or canonical spelling was written
+            r matches Ok(t) ==> forall|j: int| 0 <= j < t.postings@.len() ==> final(ctx).accounts.resolved(txn.posts@[j].value.account.value@) == Some(#[trigger] t.postings@[j].account),   // @add_transaction.posting_booked_on_the_account_its_name_resolves_to
             // C04: the running balance moves by exactly the amounts the stored (register) postings list, per account and commodity
             r matches Ok(t) ==> forall|a: Account, c: Commodity| #[trigger] val(final(bal)@, a, c) == val(old(bal)@, a, c) + acct_sum(t.postings@, t.postings@.len() as int, a, c),   // @add_transaction.balance_moves_by_the_listed_postings
 """),
@@ -300,7 +303,8 @@ impl ProcessAccumulator {
       rewrites=[RET(),
                 ("R9-stub-path", "re:syntax::(AccountDetail|CommodityDetail)::", "\\1::", None),
                 ("R11-ctor-as-fn", ".map_err(BookKeepError::InvalidAccount)", ".map_err(|e: u8| -> (b: BookKeepError) ensures b == BookKeepError::InvalidAccount(e) { BookKeepError::InvalidAccount(e) })", 2),
-                ("R11-ctor-as-fn", ".map_err(BookKeepError::InvalidCommodity)", ".map_err(|e: u8| -> (b: BookKeepError) ensures b == BookKeepError::InvalidCommodity(e) { BookKeepError::InvalidCommodity(e) })", 2)],
+                ("R11-ctor-as-fn", ".map_err(BookKeepError::InvalidCommodity)", ".map_err(|e: u8| -> (b: BookKeepError) ensures b == BookKeepError::InvalidCommodity(e) { BookKeepError::InvalidCommodity(e) })", 2),
+                ("R6c-for-ref-vec", "for cd in &commodity.details {", "for di__ in 0..commodity.details.len() { let cd = &commodity.details[di__];", 1)],
       loops={0: """
                     invariant
                         ctx.accounts.registered(canonical),
@@ -311,10 +315,11 @@ impl ProcessAccumulator {
                         ctx.commodities.registered(canonical),
                         ctx.commodities.resolved(commodity.name@) is Some,
                         forall|n: Seq<char>| old(ctx).commodities.resolved(n) is Some ==> ctx.commodities.resolved(n) == old(ctx).commodities.resolved(n),
+                        ctx.commodities.resolved(commodity.name@) == Some(canonical),
+                        declared_scale(commodity.details@, di__ as int) matches Some(sc) ==> ctx.commodities.dp(canonical) == Some(sc),
 """},
-      inserts=[("before", "self.txns.push(add_transaction(", 0, "let ghost txns_before = self.txns@; let ghost bal_before = self.balance@;\n                "),
-               ("after", "txn,\n                )?);", 0, """
-                proof {
+      body_start="""        let ghost txns_before = self.txns@; let ghost bal_before = self.balance@;""",
+      inserts=[("before", "Ok(())", 0, """proof {
                     let n = txns_before.len() as int;
                     assert(self.txns@.len() == n + 1);
                     assert forall|a: Account, c: Commodity| #[trigger] val(self.balance@, a, c) == txn_sum(self.txns@, self.txns@.len() as int, all_dates(), a, c) by {
@@ -322,7 +327,8 @@ impl ProcessAccumulator {
                         assert(val(bal_before, a, c) == txn_sum(txns_before, n, all_dates(), a, c));
                         assert(all_dates()(self.txns@[n].date));
                     }
-                }""")],
+                }
+                """)],
       contract="""
         requires old(self).wf(),
         ensures
@@ -335,6 +341,9 @@ impl ProcessAccumulator {
             // an accepted declaration registers the name as canonical; names known before keep their meaning
             (entry is Account && r is Ok) ==> final(ctx).accounts.resolved(entry->Account_0.name@) is Some,    // @process.account_registered
             (entry is Commodity && r is Ok) ==> final(ctx).commodities.resolved(entry->Commodity_0.name@) is Some,   // @process.commodity_registered
+            // C01: the precision of a `format` line is stored for the declared commodity, whatever the sample spells after the number
+            (entry is Commodity && r is Ok) ==> (declared_scale(entry->Commodity_0.details@, entry->Commodity_0.details@.len() as int) matches Some(sc) ==>
+                final(ctx).commodities.dp(final(ctx).commodities.resolved(entry->Commodity_0.name@)->Some_0) == Some(sc)),   // @process.declared_precision_is_stored
             entry is Account ==> forall|n: Seq<char>| old(ctx).accounts.resolved(n) is Some ==> final(ctx).accounts.resolved(n) == old(ctx).accounts.resolved(n),
             entry is Commodity ==> forall|n: Seq<char>| old(ctx).commodities.resolved(n) is Some ==> final(ctx).commodities.resolved(n) == old(ctx).commodities.resolved(n),
 """),
